@@ -1,5 +1,6 @@
 import Pyxv.Proofs.ValidatorLemmas
 import Pyxv.Proofs.ValidatorLines
+import Pyxv.Proofs.ExtChoicesLemmas
 /-!
 # C18 — validator verdicts are honoured and failures leave no residue
 
@@ -516,6 +517,88 @@ theorem cleaner_end_to_end_path (pre post : Str) (segs : List Str) (more : List 
   have h := cleaner_end_to_end _ hne hlb ⟨c, r, more, by rw [h1], h2, h3⟩ hlast hjar
   obtain ⟨hsp, hrep, _⟩ := cleaner_paths_to_refs pre post segs hpre hpost hsegs hlen
   rw [h, List.map_cons, hsp, hrep hkeep]
+
+/-! ## external choices: `has_external_choices` and the itemsets file -/
+
+open Pyxv.JV in
+/-- **has_external_choices_iff** — the walk answers `True` iff some dict at any depth (below any key, inside any
+list) binds `type` to a string starting with `select one external`. -/
+theorem has_external_choices_iff (j : JV.J) : hasExt j = true ↔ ExtAt j :=
+  ⟨hasExt_sound j, hasExt_complete j⟩
+
+/-- a survey element as the JSON intermediate form nests it: its type, its other members, its children -/
+inductive El where
+  | node (type : Str) (extra : List (Str × JV.J)) (children : List El)
+
+mutual
+/-- the dict of an element: `{"type": …, …, "children": […]}` -/
+def El.toJ : El → JV.J
+  | .node t extra ch => .obj ((typeKey, .str t) :: extra ++ [(childrenKey, .arr (El.toJList ch))])
+def El.toJList : List El → List JV.J
+  | [] => []
+  | e :: es => e.toJ :: El.toJList es
+end
+
+/-- the element or one of its descendants, at any depth, is an external select -/
+inductive El.HasExtSelect : El → Prop where
+  | self (t : Str) (extra : List (Str × JV.J)) (ch : List El) :
+      startsWith t selectOneExternal = true → El.HasExtSelect (.node t extra ch)
+  | child (t : Str) (extra : List (Str × JV.J)) (ch : List El) (c : El) :
+      c ∈ ch → El.HasExtSelect c → El.HasExtSelect (.node t extra ch)
+
+theorem mem_toJList (ch : List El) (c : El) (h : c ∈ ch) : c.toJ ∈ El.toJList ch := by
+  induction ch with
+  | nil => simp at h
+  | cons e es ih =>
+    rcases List.mem_cons.1 h with rfl | h'
+    · simp [El.toJList]
+    · simp [El.toJList, ih h']
+
+/-- **ext_select_any_container** — an external select is found at any depth below containers of *any* type
+(group, repeat, loop, survey, or any other type string): nothing in the walk depends on the container's type. -/
+theorem ext_select_any_container (e : El) (h : El.HasExtSelect e) : hasExt e.toJ = true := by
+  induction h with
+  | self t extra ch ht =>
+    exact hasExt_complete _ (.here _ (.str t) (by simp [El.toJ]) (by simpa [isExtType] using ht))
+  | child t extra ch c hm _ ih =>
+    refine hasExt_complete _ (.inObj _ childrenKey (.arr (El.toJList ch)) (by simp [El.toJ]) ?_)
+    exact .inArr _ c.toJ (mem_toJList ch c hm) (hasExt_sound _ ih)
+
+/-- the container kinds a survey row can open (`aliases.control`) are the builder's section types or `loop` -/
+theorem container_kinds_table :
+    Gen.aliasControl.all (fun p => Gen.c18SectionTypes.contains p.2 || p.2 == Gen.c18LoopType) = true := by decide
+
+theorem convert_ok_itemsets (u p : Str) (items : Option Str) (preW postW : List Str) (t : Nat) (v pp : Bool)
+    (env : Env) (fs : FS) (cr : ConvertResult)
+    (h : (convert (.ok u p items preW postW) t v pp env fs).res = .ok cr) : cr.itemsets = items := by
+  unfold convert toXml printXformToFile at h
+  cases v
+  · simp at h; rw [← h]
+  · cases hc : checkXform env with
+    | error e => simp [hc] at h
+    | ok w => simp [hc] at h; rw [← h]
+
+/-- **itemsets_beside_tree** — `itemsets_beside` tied to the tree walk: when the JSON intermediate form contains an
+external select at any depth, every successful run (any mode, any flags, any validator environment that lets the
+library call return) leaves `itemsets.csv` with the external choices beside the XForm. -/
+theorem itemsets_beside_tree (raw : Args) (inDir inName : Str) (out : Option (Str × Str)) (pyx : JV.J) (csv u p : Str)
+    (preW postW : List Str) (t : Nat) (env : Env) (fs : FS) (r : CliOut) (cr : ConvertResult)
+    (hext : ExtAt pyx)
+    (h : mainCli raw inDir inName out (.ok u p (itemsetsOf pyx csv) preW postW) t env fs = some r)
+    (hlib : (libCall raw (.ok u p (itemsetsOf pyx csv) preW postW) t env fs).res = .ok cr) :
+    cr.itemsets = some csv ∧ FS.read r.fs (.file (outPathOf inDir inName out).1 itemsetsName) = some csv := by
+  have hi : cr.itemsets = some csv := by
+    rw [convert_ok_itemsets _ _ _ _ _ _ _ _ _ _ _ hlib]
+    simp [itemsetsOf, hasExt_complete pyx hext]
+  exact ⟨hi, itemsets_beside raw inDir inName out _ t env fs r cr csv h hlib hi⟩
+
+/-- an external select inside a `loop` inside a `repeat` below the survey, on concrete data -/
+example : hasExt (El.toJ (.node "survey".toList [] [.node "repeat".toList [] [.node "loop".toList [("name".toList, .str "l".toList)]
+    [.node "select one external cities".toList [] []]]])) = true := by decide +kernel
+example : El.HasExtSelect (.node "survey".toList [] [.node "loop".toList [] [.node "select one external cities".toList [] []]]) :=
+  .child _ _ _ (.node "loop".toList [] [.node "select one external cities".toList [] []]) (List.mem_singleton.2 rfl)
+    (.child _ _ _ (.node "select one external cities".toList [] []) (List.mem_singleton.2 rfl) (.self _ _ _ (by decide +kernel)))
+example : hasExt (El.toJ (.node "survey".toList [] [.node "select one".toList [] []])) = false := by decide +kernel
 
 /-! ## non-vacuity -/
 
